@@ -29,3 +29,14 @@ func CallX(a int) int { return vc12X(a) }
 //
 //go:noinline
 func CallY(a int) int { return vc12Y(a) }
+
+// vc12u is the unexported struct that exists under the same name in the probe's own package.
+type vc12u struct{ pad int }
+
+//go:noinline
+func (t *vc12u) um(a int) int { return pad(a, 100000) }
+
+// CallUm calls this package's (*vc12u).um.
+//
+//go:noinline
+func CallUm(a int) int { return (&vc12u{}).um(a) }
